@@ -368,4 +368,47 @@ def rule_g(ctx: Ctx) -> None:
                 'class iterates `self.<attr>` (or its items()/values()) directly; tuple()/list()/sorted() snapshots are accepted.')
 
 
-RULES = [rule_a, rule_b, rule_c, rule_d, rule_e, rule_f, rule_g]
+LOADS = ('load_schema', 'include_schema', 'import_schema', 'fetch_schema', 'add_schema')
+
+
+def rule_h(ctx: Ctx) -> None:
+    """XsdGlobals.protect_status() rolls the maps back when its block fails: clear(), then refill - a sequence of separate writes to the maps
+    every validating thread reads, so other threads see an empty, unbuilt schema in between.  That is the price of a load that went wrong
+    (the maps were being changed anyway); a block that has not started to load anything must not be able to start the rollback - looking up a
+    namespace that no location provides is a read-only operation on a built schema."""
+    rule = 'C18.h'
+    n = 0
+    for f in ctx.idx.iter_functions():
+        if isinstance(f.node, ast.Lambda) or f.module.name.startswith(('xmlschema.testing', 'xmlschema.extras')):
+            continue
+        ws = [w for w in walk_no_nested(f.node) if isinstance(w, ast.With) and any(
+            isinstance(i.context_expr, ast.Call) and isinstance(i.context_expr.func, ast.Attribute) and i.context_expr.func.attr == 'protect_status' for i in w.items)]
+        if not ws:
+            continue
+        ctx.analysed(f.qualname)
+        g = cfg_of(ctx, f)
+        loads = [x for x, c in call_nodes(g, lambda c: isinstance(c.func, ast.Attribute) and c.func.attr in LOADS)]
+        for w in ws:
+            n += 1
+            inside = {id(x) for b in w.body for x in ast.walk(b)}
+            rz = [x for x in g.nodes if x.kind == 'raise' and id(x.ast) in inside]
+            bad = None
+            for r in rz:
+                if g.must_pass(g.entry, [r], loads, kinds='nTFxi') is not None:
+                    bad = r
+                    break
+            ok = bad is None
+            ctx.ob(rule, f'{f.qualname.split(".", 1)[-1]}: the rollback of protect_status() can start only after a schema load was attempted', f.loc(bad.ast) if bad else f.loc(w), ok,
+                   '' if ok else f'`{text(bad.ast)[:60]}` is reachable inside the protected block without any load: the handler of protect_status() clears and refills the shared maps '
+                   'although nothing changed - e.g. for every attribute or element of a namespace unknown to the schema - and the threads that validate with the same '
+                   'schema meanwhile find it empty and not built', key=f'{f.qualname}|rollback-without-load')
+    ctx.floor(rule, 'protect_status blocks', n, 3)
+    ps = ctx.idx.func(f'{GLOB}.protect_status')
+    hs = [h for t in ast.walk(ps.node) if isinstance(t, ast.Try) for h in t.handlers]
+    ok = len(hs) == 1 and any(text(c.func) == 'self.clear' for c in calls(hs[0]))
+    ctx.ob(rule, 'protect_status restores by clear-and-refill in its exception handler only', ps.loc(), ok, '', key='protect_status|handler', nontrivial=False)
+    ctx.explain('C18.h: inside every `with ….protect_status(…)` block each explicit `raise` is reachable only through a call that loads a schema '
+                '(load_schema / include_schema / import_schema); the clear-and-refill of the shared maps lives in the handler of protect_status alone.')
+
+
+RULES = [rule_a, rule_b, rule_c, rule_d, rule_e, rule_f, rule_g, rule_h]
